@@ -8,7 +8,7 @@ import (
 
 // ---------------------------------------------------------------- keys
 
-var simpleKeys = []string{"k", "a", "b", "debug", "net_udp_port", "x.y", "key1", "key2", "long_key_name_3", "_u", "9n", "Z"}
+var simpleKeys = []string{"k", "a", "b", "debug", "net_udp_port", "x.y", "key1", "key2", "long_key_name_3", "_u", "9n", "Z", "pct%d"}
 
 // raw (as written in a file) → parsed key
 type rawKey struct{ raw, parsed string }
@@ -33,7 +33,7 @@ var intTexts = []string{"0", "1", "-1", "+7", "007", "2147483647", "2147483648",
 var boolTexts = []string{"true", "false", "TRUE", "False", "t", "F", "1", "0", "yes", "tRUE", "on", " true"}
 var floatTexts = []string{"1.5", "-0.0", "1e10", "1e39", "NaN", "inf", "-Inf", ".5", "5.", "0x1p-2", "1_0.5", "1.5f", "3.4028235e38", "1e-46"}
 var listTexts = []string{"1,2,3", "1, 2 ,x,3", ",,1,,", "a,b;c", "1;2;3", "10,9223372036854775808,-5", "2147483648,4294967297,-2147483649", " , ", "7"}
-var miscTexts = []string{"", " ", "plain", "two words", "trail  ", "a=b", "a:b", "x = y = z", "#notcomment", "!bang", `C:\\dir\\f`, `a\\\\b`, `tab\there`, `nl\nx`,
+var miscTexts = []string{"50%", "%s%d%%", "", " ", "plain", "two words", "trail  ", "a=b", "a:b", "x = y = z", "#notcomment", "!bang", `C:\\dir\\f`, `a\\\\b`, `tab\there`, `nl\nx`,
 	`\u00e9\u4e2d`, "é中", "\u00a0", "\u00a0x\u3000", `q\"uote`, `\ lead`, `end\\`, "$", "$x", "{}", "a$b{c}", `bs\zq`, "emoji😀", "v\u2028w", `\:\=`, "\x0cff"}
 
 func genRawValue(r *vh.Rng) string {
@@ -65,7 +65,14 @@ func genRawValue(r *vh.Rng) string {
 
 var seps = []string{"=", "=", "=", "=", "=", " = ", "= ", " =", ":", " : ", " ", "\t", "\t=\t", "  =  "}
 
-var commentTexts = []string{"# comment", "! bang comment", "#", "#x=1", "# c = a = b", "  # indented = yes", "#k=1=2=3", "!a=b", "# ünï=cödé", "#\ttab = t"}
+var commentTexts = []string{"# comment", "! bang comment", "#", "#x=1", "# c = a = b", "  # indented = yes", "#k=1=2=3", "!a=b", "# ünï=cödé", "#\ttab = t",
+	"# 100% of the budget", "#%s %d %v %%", "! 50%% done = yes", "# back\\slash \\n \\t \\u0041", "#\ttab\tinside\t", "# trailing blanks   ", "# a=b # c ! d", "# ünï 中 😀 %q", "#%", "!%!(EXTRA)",
+	"# " + strings.Repeat("long %d comment ", 180)}
+
+// lines without '=' that are not comments: Write copies them as they are (they still yield an item for the
+// parser: key, or key + value separated by a blank — outside the well-formed class)
+var junkTexts = []string{"100% of", "%s", "%d items", "plain words", "back\\slash", "tab\there", "trailing   ", "mid#hash !bang", "中文 行", "k%v", "word",
+	"x " + strings.Repeat("long%s ", 300)}
 var blankTexts = []string{"", "", " ", "\t", "  \x0c"}
 
 // a line of a generated file
@@ -80,6 +87,8 @@ func genLine(r *vh.Rng, exotic int) line {
 		return line{"comment", r.PickStr(commentTexts)}
 	case r.Chance(8):
 		return line{"blank", r.PickStr(blankTexts)}
+	case exotic > 0 && r.Chance(7):
+		return line{"junk", r.PickStr(junkTexts)}
 	default:
 		k := genKey(r, exotic)
 		sep := "="
@@ -92,7 +101,7 @@ func genLine(r *vh.Rng, exotic int) line {
 		}
 		var v string
 		if exotic == 0 {
-			v = r.PickStr([]string{"1", "true", "x", "hello world", "a,b,c", "1.5", "v=w", "é", `p\\q`})
+			v = r.PickStr([]string{"1", "true", "x", "hello world", "a,b,c", "1.5", "v=w", "é", `p\\q`, "100%", "%d%%s", "#x !y"})
 		} else {
 			v = genRawValue(r)
 		}
@@ -124,7 +133,7 @@ var expansionTexts = []string{"a=${b}\nb=2\n", "a=x${HOME_NOT_SET_C18}y\n", "a=1
 
 // ---------------------------------------------------------------- values handed to SetValues
 
-var setValues = []string{"1", "10", "true", "v", "new value", "a,b", "x=y", "é中", "0", "3.5", "p:q", "#h", "{}", "end\\", `a\b`, "t\tb"}
+var setValues = []string{"100%", "%s %d", "1", "10", "true", "v", "new value", "a,b", "x=y", "é中", "0", "3.5", "p:q", "#h", "{}", "end\\", `a\b`, "t\tb"}
 var setValuesOdd = []string{"", " ", `a\\b`, `\\`, " lead", "\tlead", "two\nlines", "cr\rx", "\u00a0", `a\\\b`}
 
 func genSetKV(r *vh.Rng, odd int) (string, string) {
